@@ -463,7 +463,7 @@ func TestC03(t *testing.T) {
 		"driver-chosen order) or not; every script ends by releasing all gates and draining; non-trivial when at least 4 actions"
 	nRandom := 90
 	if emit.Thorough() {
-		nRandom = 800
+		nRandom = 1000
 	}
 	var scs []scenario
 	fixed := []struct {
